@@ -288,6 +288,9 @@ def default_configs(tier):
             C.Config(["AVX2"], cxx="clang++", std="c++14", opt="-O1"),
             # -O0: intrinsics map to instructions literally and _mm_undefined_*() really reads an uninitialised stack slot (the driver poisons the stack)
             C.Config(["SSE2"], opt="-O0"), C.Config(["AVX2", "FMA"], opt="-O0"),
+            # ... and the other rungs of the ladder unoptimised (thinned workload): an expression the optimiser rewrites into a well-defined one
+            # (a - b >= 0 into a >= b) is only wrong there
+            C.Config(["SSE4_1"], opt="-O0"), C.Config(["AVX512F"], opt="-O0"), C.Config(["AVX512VL", "AVX512BW"], opt="-O0"), C.Config(list(C.EVERYTHING), opt="-O0"),
             # what most users build: AVEL_AUTO_DETECT with -march=native (every extension of this CPU, detected from the compiler's macros)
             C.Config([], cxx="g++", std="c++17", opt="-O2", extra=("-DAVEL_AUTO_DETECT", "-march=native"))])
     out = [C.Config(m) for m in C.lattice_macro_sets()]
